@@ -153,10 +153,10 @@ prop('C02',
 
 prop('C10',
      modules=['WitnessVerif.Props.C10'],
-     scenarios=lambda tier: [sc('bastion', n=30 if tier == 'quick' else 300)] * (4 if tier == 'quick' else 10),
+     scenarios=lambda tier: [sc('bastion', n=30 if tier == 'quick' else 300)] * (4 if tier == 'quick' else 10) + [sc('bastione2e')],
      diverge={'H': {'status', 'ctype', 'rbody', 'post', 'oracle'}},
      nontrivial_line=lambda k, line: k == 'H',
-     rule='requests through the real addHandler (built as FeedBastion builds it, real witness + real witnessAdapter behind it, in-memory and SQLite) in states reached by earlier requests through the same endpoint: honest growth/refresh (200), stale (409 + size), old size above checkpoint (400), same size other root (409), bad proof (422), bad signature (403), unknown origin (404), ten malformed variants (400), arbitrary mutations, limiter 0/s and 3/s (429); status, content type, body and witness state compared with the model; independent ed25519 verification of the returned cosignature lines',
+     rule='requests through the real addHandler (built as FeedBastion builds it, real witness + real witnessAdapter behind it, in-memory and SQLite) in states reached by earlier requests through the same endpoint: honest growth/refresh (200), stale (409 + size), old size above checkpoint (400), same size other root (409), bad proof (422), bad signature (403), unknown origin (404), ten malformed variants (400), arbitrary mutations, limiter 0/s and 3/s (429); the same request classes end to end: a stub bastion accepts the reverse TLS 1.3 / ALPN bastion/0 connection dialled by the exported FeedBastion and sends the requests over HTTP/2 (with and without declared length), plus honest requests sized just below, at and above the 16 KiB body cap; status, content type, body and witness state compared with the model; independent ed25519 verification of the returned cosignature lines',
      assumptions=['TLS 1.3/HTTP-2 reverse connection and token-bucket timing are not modelled (in-process handler); the limiter is a Bool input of the model'])
 
 prop('C11',
@@ -168,7 +168,7 @@ prop('C11',
 
 prop('C19',
      modules=['WitnessVerif.Props.C19'],
-     scenarios=lambda tier: [sc('bastion', n=30 if tier == 'quick' else 300)] * (3 if tier == 'quick' else 8) + [sc('parsebody'), sc('prooffmt'), sc('hostile'), sc('dist', n=150 if tier == 'quick' else 3000)],
+     scenarios=lambda tier: [sc('bastion', n=30 if tier == 'quick' else 300)] * (3 if tier == 'quick' else 8) + [sc('parsebody'), sc('prooffmt'), sc('hostile'), sc('dist', n=150 if tier == 'quick' else 3000), sc('bastione2e'), sc('omni')],
      diverge={'H': {'status'}, 'PB': None, 'PFU': None},
      nontrivial_line=lambda k, line: k in ('H', 'PB', 'PFU', 'HF') and ('class=mutated' in line or 'malformed' in line or k in ('PFU', 'HF')),
      rule='arbitrary and mutated bytes against the add-checkpoint handler (panics recovered and reported), parseBody and Proof.Unmarshal; status must be in {200,400,403,404,409,422,429,500}; all five feeder types (one cycle, under recover and a deadline) against a log server answering with log-signed checkpoints of sizes {0, 6, 2^62, 2^62+1, 2^63-1, 2^63, 2^64-1} x root lengths {0, 5, 32, 33} x tile answers {404, garbage}, truncated / empty / random / 3 MiB bodies, statuses 500/404, empty/huge/garbage tiles; the distributor against connection resets, redirects and error statuses',
@@ -194,8 +194,8 @@ prop('C05',
 
 prop('C04',
      modules=['WitnessVerif.Props.C04'],
-     scenarios=lambda tier: hist_scenarios(tier, exh_q=2, exh_t=4) + [sc('fault')],
-     diverge={'U': {'accept', 'ret', 'post', 'oracle'}},
+     scenarios=lambda tier: hist_scenarios(tier, exh_q=2, exh_t=4) + [sc('fault'), sc('httpapi')],
+     diverge={'U': {'accept', 'ret', 'post', 'oracle'}, 'A': {'get'}},
      nontrivial=lambda u: u.get('err') == 'none',
      rule='every accepted Update of the history scenarios (first use, growth, same-size refresh; extension lines, extra known/unknown signature lines, stale and forged lines in the witness name, padding up to the 100-line limit; witness key sets of 1-3 legacy Ed25519 / cosignature-v1 keys; in-memory, SQLite :memory:, SQLite file): returned bytes compared byte-for-byte with the model (signature bytes taken from the real signers), independently verified (plain ed25519 over the reconstructed cosignature/v1 message), timestamp within the call window, read-after-update; non-trivial = accepted update',
      assumptions=['wall-clock time is an input (window measured around the call)'])
